@@ -1,16 +1,9 @@
 (** C13: the direct weight description (one header byte 127 + number of weights, then the weights as 4-bit fields, two per
     byte, the first in the high half; [HuffmanEncoder::write_table] for at most 16 weights, legal up to 128) is parsed
     by the decoder into exactly the weights that were written. *)
-Require Import Zrs.lib.RsPrelude Zrs.model.BitIO Zrs.model.FseDec Zrs.model.HufDec.
+Require Import Zrs.lib.RsPrelude Zrs.model.BitIO Zrs.model.FseDec Zrs.model.HufDec Zrs.model.WeightEnc.
 Open Scope Z_scope.
 
-Fixpoint pack_weights (ws : list Z) : list Z :=
-  match ws with
-  | [] => []
-  | [w] => [w * 16]
-  | w1 :: w2 :: t => (w1 * 16 + w2) :: pack_weights t
-  end.
-Definition direct_desc (ws : list Z) : list Z := (Z.of_nat (length ws) + 127) :: pack_weights ws.
 
 Lemma pack_length ws : Z.of_nat (length (pack_weights ws)) = (Z.of_nat (length ws) + 1) / 2.
 Proof.
